@@ -6,10 +6,13 @@
    commute with a transport of variants that is injective and SITE-PRESERVING; same-strand builds (any injective position map,
    gapped alignments included) always are; opposite strands are not as soon as two non-insertion variants of different footprint
    length start at the same RefSeq base; the hypothesis cannot be dropped (witness).
-   NOT proved: that aldy's three ILP stages are instances of this abstract stage (the stage models of C02-C04 are not transported
+   Proved in addition (end of this file): the MAJOR stage specification of C02 (MajorSpec: score, admissibility, the enumeration of
+   admissible combinations) commutes with every such transport.
+   NOT proved: the same for the candidate filter, the copy-number stage and the minor stage (their models are not transported
    here); beyond the hypothesis, and for the implementation as a whole, harness/c13.py decides by a two-build differential on
    stage results and scores (shipped genes hg19/hg38, generated opposite-strand databases). *)
 From Aldy Require Import Base Consts Transport TransportProofs.
+From Aldy Require Filter MajorModel MajorSpec MajorTransportProofs.
 Open Scope Z_scope.
 
 Theorem C13_stage_equivariant : forall (tr : variant -> variant) (vars : list variant),
@@ -77,3 +80,54 @@ Example C13_shift_example :
   site_preserving_b tr w_vars = true /\ injective_b tr w_vars = true /\
   (score (map tr w_vars) {| e_var := fun _ => 1%Q; e_ref := fun _ => 0%Q |} (tr_combo tr w_combo) == score w_vars w_e w_combo)%Q.
 Proof. exact shift_example. Qed.
+
+(* ================================================================= the MAJOR STAGE itself (MajorSpec.v, the object of the C02 theorems)
+   The abstract stage above has the shape of major.py:128-197; here the real specification is transported.  [tr] moves the
+   catalogue variants of the instance (the observed core variants [fm] and the definitions of the candidate alleles) from one
+   coordinate system to the other; it has to be injective, site-preserving and keep insertions insertions on them
+   ([MajorTransportProofs.transport_ok]); the evidence of the second build is the evidence of the first seen through [tr] ([MajorTransportProofs.evidence_ok]:
+   observed copies of every variant, observed reference copies of every site, has_coverage of every configuration).
+   Then: every combination has the same score in both builds, admissibility is the same, and the enumerations of admissible
+   combinations correspond one to one (same allele counts, novel variants transported, scores equal) — so, by the C02 theorems
+   (reported = the admissible combinations within the gap of the best), the major calls and scores of the two builds agree.
+   NOT covered: the candidate filter (_filter_alleles) and the minor stage are not transported here. ---- *)
+Theorem C13_major_score_equivariant : forall (tr : Filter.mut -> Filter.mut) (U : list Filter.mut) (cands : list MajorModel.allele) (fm : list Filter.mut)
+  (obsf obsf' : Filter.mut -> Q) (hcov hcov' : str -> Z -> bool) (pen unit : Q),
+  MajorTransportProofs.transport_ok tr U -> MajorTransportProofs.covers_instance U cands fm -> MajorTransportProofs.evidence_ok tr U obsf obsf' hcov hcov' ->
+  forall (cnt cnt' : MajorModel.allele -> Q) (nov nov' : Filter.mut -> Q),
+  (forall al, In al cands -> cnt' (MajorTransportProofs.tr_allele tr al) = cnt al) -> (forall m, In m fm -> nov' (tr m) = nov m) ->
+  (MajorSpec.score (map (MajorTransportProofs.tr_allele tr) cands) (map tr fm) obsf' hcov' pen unit cnt' nov' == MajorSpec.score cands fm obsf hcov pen unit cnt nov)%Q.
+Proof. exact MajorTransportProofs.score_tr. Qed.
+Goal True. idtac "ASSUME C13_major_score_equivariant". Abort.
+Print Assumptions C13_major_score_equivariant.
+
+Theorem C13_major_admissible_equivariant : forall (tr : Filter.mut -> Filter.mut) (U : list Filter.mut) (cands : list MajorModel.allele) (struct : list (str * Z))
+  (fm : list Filter.mut), MajorTransportProofs.transport_ok tr U -> MajorTransportProofs.covers_instance U cands fm ->
+  forall counts novel, incl novel fm ->
+  MajorSpec.admissible (map (MajorTransportProofs.tr_allele tr) cands) struct (map tr fm) counts (map tr novel) = MajorSpec.admissible cands struct fm counts novel.
+Proof. exact MajorTransportProofs.admissible_tr. Qed.
+Goal True. idtac "ASSUME C13_major_admissible_equivariant". Abort.
+Print Assumptions C13_major_admissible_equivariant.
+
+Theorem C13_major_enumeration_equivariant : forall (tr : Filter.mut -> Filter.mut) (U : list Filter.mut) (cands : list MajorModel.allele) (struct : list (str * Z))
+  (fm : list Filter.mut) (obsf obsf' : Filter.mut -> Q) (hcov hcov' : str -> Z -> bool) (pen unit : Q),
+  MajorTransportProofs.transport_ok tr U -> MajorTransportProofs.covers_instance U cands fm -> MajorTransportProofs.evidence_ok tr U obsf obsf' hcov hcov' ->
+  Forall2 (MajorTransportProofs.comb_rel tr) (MajorSpec.enum_all cands struct fm obsf hcov pen unit)
+                        (MajorSpec.enum_all (map (MajorTransportProofs.tr_allele tr) cands) struct (map tr fm) obsf' hcov' pen unit).
+Proof. exact MajorTransportProofs.enum_all_tr. Qed.
+Goal True. idtac "ASSUME C13_major_enumeration_equivariant". Abort.
+Print Assumptions C13_major_enumeration_equivariant.
+
+(* two builds on the same strand: always a legal transport *)
+Theorem C13_major_same_strand : forall (f : Z -> Z) (U : list Filter.mut), (forall x y, f x = f y -> x = y) ->
+  MajorTransportProofs.transport_ok (fun m : Filter.mut => (f (fst m), snd m)) U.
+Proof. exact MajorTransportProofs.same_strand_transport_ok. Qed.
+Goal True. idtac "ASSUME C13_major_same_strand". Abort.
+Print Assumptions C13_major_same_strand.
+
+(* the hypotheses are satisfiable and the enumeration is not empty *)
+Example C13_major_example :
+  MajorTransportProofs.transport_ok MajorTransportProofs.mt_tr MajorTransportProofs.mt_fm /\ MajorTransportProofs.covers_instance MajorTransportProofs.mt_fm MajorTransportProofs.mt_cands MajorTransportProofs.mt_fm /\ MajorTransportProofs.evidence_ok MajorTransportProofs.mt_tr MajorTransportProofs.mt_fm MajorTransportProofs.mt_obs MajorTransportProofs.mt_obs MajorTransportProofs.mt_hcov MajorTransportProofs.mt_hcov /\
+  map (fun x : MajorSpec.comb => (Qred (MajorSpec.sc x), snd (fst x), snd x)) (MajorSpec.enum_all MajorTransportProofs.mt_cands [([49], 2)] MajorTransportProofs.mt_fm MajorTransportProofs.mt_obs MajorTransportProofs.mt_hcov 21 (1 # 10)) =
+    [(2%Q, [([49], 0); ([50], 2)], []); (0%Q, [([49], 1); ([50], 1)], []); ((221 # 10)%Q, [([49], 2); ([50], 0)], [(100, MajorTransportProofs.mt_AG)])].
+Proof. exact MajorTransportProofs.mt_example. Qed.
